@@ -359,7 +359,9 @@ def decode_tagged(row, raw):
     if kind == "fixed":
         return ("value", _pow10(v, row["exp10"]))
     if kind == "temp":
-        return ("value", v - 60)
+        # TemperatureValue.offset is a class attribute like unit / signed / min_value: a declaration may set its own
+        # (row["offset"]); the shipped temperatures and the abstract base use 60
+        return ("value", v - row.get("offset", 60))
     if kind == "version1":
         if v == 0xFF:
             return ("value", "not implemented")
